@@ -78,13 +78,20 @@ func (u *under) Write(b []byte) (int, error) {
 	return u.answer(len(b))
 }
 
+// flushed: net/http sends the header (200 unless set) at the first Flush.
+func (u *under) flushed() {
+	if len(u.codes) == 0 {
+		u.codes = append(u.codes, 200)
+	}
+}
+
 type flushUnder struct{ *under }
 
-func (f flushUnder) Flush() {}
+func (f flushUnder) Flush() { f.under.flushed() }
 
 type fullUnder struct{ *under }
 
-func (f fullUnder) Flush()                                       {}
+func (f fullUnder) Flush()                                       { f.under.flushed() }
 func (f fullUnder) CloseNotify() <-chan bool                     { return nil }
 func (f fullUnder) Hijack() (net.Conn, *bufio.ReadWriter, error) { return nil, nil, errors.New("no") }
 func (f fullUnder) ReadFrom(r io.Reader) (int64, error) {
@@ -100,7 +107,7 @@ type rcall struct {
 	kind string // wh201 wh404 w3 w0 rf5
 }
 
-var callKinds = []string{"wh201", "wh404", "w3", "w0", "rf5"}
+var callKinds = []string{"wh201", "wh404", "w3", "w0", "rf5", "fl"}
 
 func proxyPart(r *seq.Run, tier string) {
 	L := 4
@@ -168,6 +175,10 @@ func proxyPart(r *seq.Run, tier string) {
 						refStatus = 200
 					}
 					refSize += answered(5)
+				case "fl": // Flush sends the header: an implicit 200 if none was set
+					if refStatus == 0 {
+						refStatus = 200
+					}
 				}
 			}
 			gotStatus, gotSize, called := -1, -1, 0
@@ -185,6 +196,10 @@ func proxyPart(r *seq.Run, tier string) {
 						w.Write([]byte("abc"))
 					case "w0":
 						w.Write(nil)
+					case "fl":
+						if fl, ok := w.(http.Flusher); ok {
+							fl.Flush()
+						}
 					case "rf5":
 						if rf, ok := w.(io.ReaderFrom); ok {
 							rf.ReadFrom(strings.NewReader("12345"))
@@ -234,6 +249,9 @@ func proxyPart(r *seq.Run, tier string) {
 			}
 			for _, c := range callKinds {
 				if c == "rf5" && capset != "full" {
+					continue
+				}
+				if c == "fl" && capset == "basic" {
 					continue
 				}
 				nc := append(append([]string{}, calls...), c)
